@@ -3,6 +3,7 @@ From Coq Require Import ZArith List.
 From RRTK Require Import Num.Num Num.B32 Model.Values Model.Prog Model.Wire Model.WireStreams Model.WireSettable Model.WireMP Model.WireWorld.
 Import ListNotations.
 Local Open Scope Z_scope.
+From Coq Require Import Bool.
 
 Definition run_case (l : list Z) : list Z :=
   match l with
@@ -12,5 +13,6 @@ Definition run_case (l : list Z) : list Z :=
   | 5 :: r => run_sett_case r
   | 6 :: r => run_mp_case r
   | 7 :: r => run_world_case r
+  | [8; n; i] => if (0 <=? i) && (i <? n) then [0] else [W_PANIC]   (* Axle::get_terminal: index out of range panics *)
   | _ => [W_BAD]
   end.
